@@ -471,6 +471,20 @@ bits_image_fetch_pixel_filtered (bits_image_t  *image,
     }
 }
 
+/* The mask scanline handed to a source iterator has the pixel size of the
+ * pipeline: one uint32_t per pixel in the narrow case, one argb_t (four
+ * floats) per pixel in the wide case.  A pixel may be skipped only if its
+ * whole mask value is zero.
+ */
+static force_inline pixman_bool_t
+mask_pixel_is_nonzero (const uint32_t *mask, pixman_bool_t wide, int i)
+{
+    if (!wide)
+	return mask[i] != 0;
+
+    return (mask[4 * i] | mask[4 * i + 1] | mask[4 * i + 2] | mask[4 * i + 3]) != 0;
+}
+
 static uint32_t *
 __bits_image_fetch_affine_no_alpha (pixman_iter_t *  iter,
 				    pixman_bool_t    wide,
@@ -513,7 +527,7 @@ __bits_image_fetch_affine_no_alpha (pixman_iter_t *  iter,
 
     for (i = 0; i < width; ++i)
     {
-	if (!mask || mask[i])
+	if (!mask || mask_pixel_is_nonzero (mask, wide, i))
 	{
 	    bits_image_fetch_pixel_filtered (
 		&image->bits, wide, x, y, get_pixel, buffer);
@@ -670,7 +684,7 @@ __bits_image_fetch_general (pixman_iter_t  *iter,
     {
 	pixman_fixed_t x0, y0;
 
-	if (!mask || mask[i])
+	if (!mask || mask_pixel_is_nonzero (mask, wide, i))
 	{
 	    if (w != 0)
 	    {
